@@ -113,6 +113,9 @@ Definition chk_flow_guard (units tv0 : Q) (raised : bool) : bool :=
 Definition chk_latch (units tv static1 : Q) : bool := approx (pf_static (latch {| pf_units := units; pf_static := 1 |} tv)) static1.
 Definition chk_daily_returns (units static tv r : Q) : bool := approx (daily_returns {| pf_units := units; pf_static := static |} tv) r.
 
+(* the pre-open purge of emptied holdings: dropped exactly when every entry has quantity 0 and equity 0 *)
+Definition chk_purge (entries : list (pcfg * pos)) (gone : bool) : bool := Bool.eqb (purgeable entries) gone.
+
 (* ---- matching (C05 C06) and the order lifecycle (C04) ---- *)
 From RQ Require Import Model.Matcher Model.Order.
 Definition reason_eqb (a b : reason) : bool :=
